@@ -452,6 +452,17 @@ func (x *Exec) vxIntrinsic(fn *ssa.Function, short string, args []Value, g *Term
 			return c.Const(64, 1)
 		}
 		return c.Const(64, 0)
+	case "vxHavoc":
+		// vxHavoc(name string, p *T): every integer/bool leaf of *p (struct fields and small arrays,
+		// recursively) becomes a fresh symbolic value "name.L<i>"; pointers, slices, maps, strings,
+		// floats and big arrays keep their value and are not counted
+		nm := x.knownStr(args[0], short)
+		iv := args[1].(*IfaceV)
+		p := iv.V.(*PtrV)
+		t := iv.T.Underlying().(*types.Pointer).Elem()
+		cnt := 0
+		x.store(p, x.havocLeaves(nm, t, x.load(p), &cnt), g)
+		return nil
 	case "vxHavocBig":
 		// vxHavocBig(name string, p *[N]T) — fills a big array with fresh SMT arrays
 		nm := x.knownStr(args[0], short)
@@ -544,4 +555,41 @@ func (x *Exec) showVal(v Value) string {
 		return x.c.Show(t, 4)
 	}
 	return fmt.Sprintf("%T", v)
+}
+
+func (x *Exec) havocLeaves(nm string, t types.Type, v Value, cnt *int) Value {
+	switch u := t.Underlying().(type) {
+	case *types.Basic:
+		if u.Info()&(types.IsInteger|types.IsBoolean) != 0 {
+			srt, _ := x.scalarSort(t)
+			r := x.nondetVar(fmt.Sprintf("%s.L%d", nm, *cnt), srt)
+			*cnt++
+			return r
+		}
+		return v
+	case *types.Struct:
+		sv, ok := x.force(v).(*StructV)
+		if !ok {
+			return v
+		}
+		out := &StructV{F: make([]Value, len(sv.F))}
+		for i := range sv.F {
+			out.F[i] = x.havocLeaves(nm, u.Field(i).Type(), sv.F[i], cnt)
+		}
+		return out
+	case *types.Array:
+		if u.Len() > 160 {
+			return v
+		}
+		av, ok := x.force(v).(*ArrayV)
+		if !ok {
+			return v
+		}
+		out := &ArrayV{E: make([]Value, len(av.E))}
+		for i := range av.E {
+			out.E[i] = x.havocLeaves(nm, u.Elem(), av.E[i], cnt)
+		}
+		return out
+	}
+	return v
 }
